@@ -20,10 +20,11 @@ def _two_sided(prog, rep, qual):
     mod = fn.module
     found = False
     for node in ast.walk(fn.node):
-        if isinstance(node, ast.If) and isinstance(node.test, ast.BoolOp) and \
-                isinstance(node.test.op, ast.Or):
+        if isinstance(node, ast.If):
             sides = set()
-            for v in node.test.values:
+            vals_ = node.test.values if isinstance(node.test, ast.BoolOp) \
+                else [node.test]
+            for v in vals_:
                 for x in ast.walk(v):
                     if isinstance(x, ast.BinOp) and isinstance(x.op, ast.Sub):
                         l = x.left
@@ -38,10 +39,10 @@ def _two_sided(prog, rep, qual):
                             sides.add('low')
                         if ln == 'X' and rn == 'b':
                             sides.add('high')
-            if sides:
+            skips = any(isinstance(s, ast.Continue) for s in node.body)
+            if sides or skips:
                 found = True
-                ok = sides == {'low', 'high'} and \
-                    any(isinstance(s, ast.Continue) for s in node.body)
+                ok = sides == {'low', 'high'} and skips
                 rep.add('P-two-sided', qual, paths.src(mod, node.test),
                         'ok' if ok else 'violation',
                         '' if ok else 'the outside-the-box test must cover '
@@ -49,11 +50,10 @@ def _two_sided(prog, rep, qual):
                         'found: %s)' % sorted(sides),
                         line=node.lineno, file=mod.path)
     if not found:
-        rep.violation('P-two-sided', qual, 'outside-the-box test',
-                      'no test of the form max(a - x) > eps or max(x - b) > '
-                      'eps guards the evaluation loop (points outside the box '
-                      'would not receive the fill value)',
-                      line=fn.node.lineno, file=mod.path)
+        rep.unknown('P-two-sided', qual, 'outside-the-box test',
+                    'no test of the form max(a - x) > eps or max(x - b) > '
+                    'eps that skips the point was found in this function',
+                    line=fn.node.lineno, file=mod.path)
 
 
 def _raises(prog, rep, qual, what, pred):
